@@ -268,6 +268,15 @@ def eval_norm(case):
             res.append(("C05/unsplit-false", desc + ": unsplit=False re-serialises to %r" % (ser,)))
     except Exception as e:  # noqa
         res.append(("C05/raises", desc + " with unsplit=False raised %r" % (e,)))
+    # platform_aware must be a no-op away from the platforms it knows
+    hostname = ".".join(a["host"] or [])
+    if not any(x in hostname for x in ("facebook", "fb.me", "youtu")):
+        try:
+            pa = _norm(url, o, quoted, platform_aware=True)
+            if pa != out:
+                res.append(("C05/platform-aware-noop", desc + ": platform_aware=True gives %r on a host that is neither facebook nor youtube" % (pa,)))
+        except Exception as e:  # noqa
+            res.append(("C05/raises", desc + " with platform_aware=True raised %r" % (e,)))
     # single-option flips: nothing else changes
     if not res and case.get("flips", True):
         res.extend(_flips(url, o, quoted, had, b, desc))
